@@ -256,9 +256,9 @@ func (g *giEval) compare(a, b giVal, op token.Token, st *giState) (t, f []*giSta
 		}
 	}
 	lt := func() *giState { return with(d.scale(-1).add(linConst(-1))) } // a < b
-	ge := func() *giState { return with(d) }                            // a >= b
-	gt := func() *giState { return with(d.add(linConst(-1))) }          // a > b
-	le := func() *giState { return with(d.scale(-1)) }                  // a <= b
+	ge := func() *giState { return with(d) }                             // a >= b
+	gt := func() *giState { return with(d.add(linConst(-1))) }           // a > b
+	le := func() *giState { return with(d.scale(-1)) }                   // a <= b
 	eq := func() *giState { return with(d, d.scale(-1)) }
 	switch op {
 	case token.LSS:
